@@ -72,10 +72,10 @@ def step_spec(draw, method):
         else:
             spec['num_steps'] = draw(st.sampled_from([None, None, 3, 6, 10, 16]))
             spec['num_extrap'] = draw(st.integers(0, 9))
-            spec['log10_base'] = (draw(st.floats(-12.0, -2.0)) if cstep else draw(st.floats(-6.0, -1.0))) \
+            spec['log10_base'] = (draw(st.floats(-12.0, -0.5)) if cstep else draw(st.floats(-6.0, -1.0))) \
                 if draw(st.booleans()) else None
     elif kind == 'scalar':
-        spec['log10_base'] = draw(st.floats(-12.0, -2.0)) if cstep else draw(st.floats(-5.0, -1.0))
+        spec['log10_base'] = draw(st.floats(-12.0, -1.0)) if cstep else draw(st.floats(-5.0, -1.0))
     elif kind == 'options':
         spec['num_extrap'] = draw(st.integers(0, 9))
         spec['step_ratio'] = draw(st.sampled_from([None, 1.6, 2.0, 3.0, 4.0]))
@@ -281,7 +281,7 @@ def evaluate(case, ctx, need_info=False):
     ev.exact = [a.exact(n) for a in ans]
     ev.exact_f = [complex(v) if isinstance(v, mp.mpc) else float(v) for v in ev.exact]
     # scales
-    ev.S, ev.S1, ev.hmin, ev.hmax, ev.U, ev.Umax = [], [], [], [], [], []
+    ev.S, ev.S1, ev.hmin, ev.hmax, ev.U, ev.Umax, ev.Ux, ev.Thead = [], [], [], [], [], [], [], []
     ev.amp = float(np.sum(np.abs(d.fd_rule.rule(ratio)))) if n > 0 else 1.0
     ev.amp = max(ev.amp, 1.0)
     for j, a in enumerate(ans):
@@ -290,6 +290,8 @@ def evaluate(case, ctx, need_info=False):
             ev.S1.append(None)
             ev.U.append(None)
             ev.Umax.append(None)
+            ev.Ux.append(None)
+            ev.Thead.append(None)
             ev.hmin.append(None)
             ev.hmax.append(None)
             continue
@@ -321,6 +323,12 @@ def evaluate(case, ctx, need_info=False):
             ev.U.append(u_x)
         else:
             ev.U.append(u_basic)
+        # extrapolated-order unit and the asymptotic gate (user sequences): the documented order
+        # p + s*t may only be demanded when even the largest step is in the asymptotic regime, i.e.
+        # the raw truncation T_p at the largest window head is a small fraction of the scale S_n
+        ev.Ux.append(u_x)
+        t_head = envelope_unit(a, n, p_eff, [max(heads)], w, difference_forming(method, n, d.order), 1.0)
+        ev.Thead.append(None if t_head is None else t_head[1])
         # worst-window unit (user-supplied steps): every candidate the library can return is a
         # Richardson combination of the raw estimates of the windows, so its error is at most
         # sum|w_R| * max over ALL windows of the raw unit (no assumption that the sequence is in its
